@@ -131,6 +131,7 @@ def _arr(f, shape):
 
 def _subsets(n):
     yield None
+    yield ()                                    # the empty subset: nothing is contracted, no volume factor applies
     for r in range(1, n + 1):
         for s in itertools.combinations(range(n), r):
             yield s[0] if r == 1 and n > 1 and s[0] == 0 else s     # also exercise the bare-int form once
